@@ -242,8 +242,20 @@ pub fn judge_stream(bytes: &[u8], stmts: &[(u32, usize)], chunk: usize) -> (Opti
 fn gen_valid_cmds(g: &mut G<'_>, stmts: &mut Vec<(u32, usize)>) -> Vec<Vec<u8>> {
     let n = g.usize_in(1, 6);
     let mut out = Vec::new();
+    // the last execute sent, with its statement id (for sending the very same bytes again)
+    let mut last_exec: Option<(u32, Vec<u8>)> = None;
     for _ in 0..n {
-        match g.weighted(&[4, 3, 5, 2, 2, 1, 1, 1, 3]) {
+        match g.weighted(&[4, 3, 5, 2, 2, 1, 1, 1, 3, if last_exec.is_some() { 3 } else { 0 }]) {
+            9 => {
+                // the same execute once more, byte for byte - possibly after long data for one of
+                // its parameters, which makes the same bytes mean something else (or nothing valid)
+                let (id, bytes) = last_exec.clone().unwrap();
+                if g.chance(2, 3) {
+                    let n = g.usize_in(0, 5);
+                    out.push(com_long_data(id, g.below(3) as u16, &g.bytes(n)));
+                }
+                out.push(bytes);
+            }
             8 => {
                 // the statements the library answers itself
                 let q = if g.coin() { gen_use_stmt(g).0 } else { format!("{}{}", g.pick(&["SELECT @@", "select @@"]), g.pick(&["max_allowed_packet", "version_comment limit 1", "", "x"])) };
@@ -262,7 +274,14 @@ fn gen_valid_cmds(g: &mut G<'_>, stmts: &mut Vec<(u32, usize)>) -> Vec<Vec<u8>> 
                 }
                 let (id, np) = *g.pick(&stmts[..]);
                 let params: Vec<Param> = (0..np).map(|_| gen_param(g)).collect();
-                out.push(com_execute(id, 0, 1, &params, true));
+                // (sometimes after long data for one of the parameters, although all are sent inline)
+                if np > 0 && g.chance(1, 6) {
+                    let n = g.usize_in(0, 5);
+                    out.push(com_long_data(id, g.below(np as u64) as u16, &g.bytes(n)));
+                }
+                let e = com_execute(id, 0, 1, &params, true);
+                last_exec = Some((id, e.clone()));
+                out.push(e);
             }
             3 => {
                 if let Some(&(id, _)) = stmts.first() {
